@@ -126,7 +126,8 @@ Definition op_targets (n : nsp) (from : option sid) (T E : list room) : list sid
 (** AddSockets / DelSockets / DisconnectSockets: apply(opts, callback).  The callback for a socket
     changes only that socket's own membership, the except set is computed before the first
     callback and a visited socket is never visited again, so the sockets visited are those
-    selected in the state before the call. *)
+    selected in the state before the call.  (Proved: BroadcastInterleaved.v models the callback
+    running inside apply's loops and shows both refine the same abstract operation.) *)
 Definition nstep (n : nsp) (o : nop) : nsp :=
   match o with
   | NConnect s => n_connect s n
